@@ -93,6 +93,33 @@ Definition b64_decode (l : bytes) : option bytes :=
   | _ => None
   end.
 
+(* ---- Encoding.Decode on one chunk of complete quanta, as base64.NewDecoder's Read calls it ----
+   (decoded bytes, corrupt?).  The bytes of every quantum before the corrupt one are returned; a
+   correctly padded quantum is decoded and then followed by CorruptInputError ("trailing garbage")
+   when it is not the last quantum OF THE CHUNK.  Whether it is depends on how the stream was cut
+   into chunks, which is why a streaming decoder accepts some inputs that DecodeString rejects. *)
+Fixpoint b64_chunk (l : bytes) : bytes * bool :=
+  match l with
+  | [] => ([], false)
+  | c0 :: c1 :: c2 :: c3 :: r =>
+      match dec6 c0, dec6 c1 with
+      | Some v0, Some v1 =>
+          match dec6 c2, dec6 c3 with
+          | Some v2, Some v3 => let '(d, e) := b64_chunk r in (dec4 v0 v1 v2 v3 ++ d, e)
+          | Some v2, None =>
+              if c3 =? PAD
+              then ([v0 * 4 + v1 / 16; (v1 mod 16) * 16 + v2 / 4], match r with [] => false | _ => true end)
+              else ([], true)
+          | None, _ =>
+              if (c2 =? PAD) && (c3 =? PAD)
+              then ([v0 * 4 + v1 / 16], match r with [] => false | _ => true end)
+              else ([], true)
+          end
+      | _, _ => ([], true)
+      end
+  | _ => ([], true)
+  end.
+
 (* ---- base64.NewEncoder: Write / Close ----
    Write(p): "leading fringe" completes the pending bytes to a group of 3, "large interior
    chunks" encodes the complete groups of the rest, "trailing fringe" keeps the last 0–2
